@@ -127,9 +127,19 @@ func ruleMergeShape(c *Ctx) {
 	for _, b := range c.bodies() {
 		l := c.L
 		mf := b.mergeAnchors()
-		if mf.merge == nil || mf.mergeDocs == nil {
+		if mf.mergeDocs == nil {
 			l.add("R-MERGESHAPE", b.Name, "anchor merge/mergeDocs", "", Undecided, "merge or mergeDocs not found", false)
 			continue
+		}
+		// the value-level function merge may have been inlined into the member walk: M1 and
+		// M2 are then stated on the member walk itself (M2')
+		inlined := mf.merge == nil
+		if inlined {
+			selfRec := len(callsTo(mf.mergeDocs, func(cc *ssa.CallCommon) bool { return cc.StaticCallee() == mf.mergeDocs })) > 0
+			if !selfRec {
+				l.add("R-MERGESHAPE", b.Name, "anchor merge/mergeDocs", "", Undecided, "no value-level merge function, and the member walk does not call itself", false)
+				continue
+			}
 		}
 		add := func(key string, pos string, ok bool, good, bad string) {
 			v, f := Discharged, good
@@ -207,12 +217,16 @@ func ruleMergeShape(c *Ctx) {
 			}
 		}
 		// M1: flag pass-through
-		for _, fn := range []*ssa.Function{mf.merge, mf.mergeDocs} {
+		m1fns := []*ssa.Function{mf.merge, mf.mergeDocs}
+		if inlined {
+			m1fns = []*ssa.Function{mf.mergeDocs}
+		}
+		for _, fn := range m1fns {
 			flag := boolParam(fn)
 			n := 0
 			for _, cs := range callsTo(fn, func(cc *ssa.CallCommon) bool {
 				f := cc.StaticCallee()
-				return f == mf.merge || f == mf.mergeDocs
+				return f != nil && (f == mf.merge || f == mf.mergeDocs)
 			}) {
 				n++
 				callee := cs.Common().StaticCallee()
@@ -227,7 +241,7 @@ func ruleMergeShape(c *Ctx) {
 			}
 		}
 		// M2: merge's returns
-		{
+		if !inlined {
 			fn := mf.merge
 			cur, patch := ssa.Value(fn.Params[0]), ssa.Value(fn.Params[1])
 			var intoCur, intoPatch *ssa.Call
@@ -306,6 +320,13 @@ func ruleMergeShape(c *Ctx) {
 			setterBlks := map[*ssa.BasicBlock]bool{}
 			bad := ""
 			nSet := 0
+			m2bad := ""
+			nM2 := 0
+			defer func() {
+				if inlined {
+					add("(M2') mergeDocs: what is stored is the patch member unless both sides are objects, and then the target after the recursive walk", b.rel(fn.Pos()), m2bad == "" && nM2 > 0, fmt.Sprintf("%d store(s) of a merged value: each admissible value is the member (not behind both object probes) or the current value behind both probes and the recursive call", nM2), m2bad+map[bool]string{true: "no store of a merged value found", false: ""}[nM2 == 0 && m2bad == ""])
+				}
+			}()
 			for bb := range ml.body {
 				for _, ins := range bb.Instrs {
 					if x, ok := memberSetter(ins, ml.key); ok {
@@ -316,6 +337,16 @@ func ruleMergeShape(c *Ctx) {
 						setterBlks[bb] = true
 						// value: the member itself, or merge(cur, member, flag)
 						if x == ml.val {
+							continue
+						}
+						if inlined {
+							// (M2') merge inlined: each value that can be stored is the member — but not
+							// where both sides were found to be objects — or the current value after the
+							// recursive walk over (its object, the member's object)
+							nM2++
+							if why := b.inlinedMergeStore(fn, ml, x, ins, mf); why != "" {
+								m2bad = why
+							}
 							continue
 						}
 						if call, ok := x.(*ssa.Call); ok && call.Call.StaticCallee() == mf.merge && call.Call.Args[1] == ml.val {
@@ -587,7 +618,7 @@ func ruleNoPrune(c *Ctx) {
 	for _, b := range c.bodies() {
 		l := c.L
 		mf := b.mergeAnchors()
-		if mf.mergeDocs == nil || mf.pruneNulls == nil || mf.merge == nil {
+		if mf.mergeDocs == nil || mf.pruneNulls == nil {
 			l.add("R-NOPRUNE", b.Name, "anchor", "", Undecided, "mergeDocs/pruneNulls/merge not found", false)
 			continue
 		}
@@ -605,11 +636,19 @@ func ruleNoPrune(c *Ctx) {
 			key := fmt.Sprintf("mergeDocs: prune call #%d only in apply mode", n)
 			if flag != nil && b.underFlagEdge(cs.Block(), flag, false) {
 				l.add("R-NOPRUNE", b.Name, key, b.posOf(cs), Discharged, "dominated by the !"+flag.Name()+" edge", true)
+			} else if mf.merge == nil && b.behindFailedObjectProbe(fn, cs) {
+				// the value-level merge is inlined: this is its prune of the patch value for a target
+				// that is not an object
+				l.add("R-NOPRUNE", b.Name, fmt.Sprintf("merge: prune call #%d", n), b.posOf(cs), Excepted, "reviewed exception: merge prunes the patch value when the target is not an object; C07 excludes that case (wherever P2 holds an object, P1 holds an object or nothing), and for MergePatch it is what RFC 7396 requires", true)
 			} else {
 				l.add("R-NOPRUNE", b.Name, key, b.posOf(cs), Violated, "nulls are pruned while combining two merge patches: deletions carried by the second patch are lost", true)
 			}
 		}
-		for k, cs := range callsTo(mf.merge, isPrune) {
+		var mergeSites []ssa.CallInstruction
+		if mf.merge != nil {
+			mergeSites = callsTo(mf.merge, isPrune)
+		}
+		for k, cs := range mergeSites {
 			key := fmt.Sprintf("merge: prune call #%d", k+1)
 			l.add("R-NOPRUNE", b.Name, key, b.posOf(cs), Excepted, "reviewed exception: merge prunes the patch value when the target is not an object; C07 excludes that case (wherever P2 holds an object, P1 holds an object or nothing), and for MergePatch it is what RFC 7396 requires", true)
 		}
@@ -2078,4 +2117,119 @@ func isLookupExtract(e *ssa.Extract) bool {
 func isRangeValue(e *ssa.Extract) bool {
 	_, ok := e.Tuple.(*ssa.Next)
 	return ok && e.Index == 2
+}
+
+
+// inlinedMergeStore (M2'): the value stored under the key in a member walk that has the
+// value-level merge inlined. Returns "" when every value that can be stored is admissible.
+func (b *Body) inlinedMergeStore(fn *ssa.Function, ml *memberLoop, x ssa.Value, at ssa.Instruction, mf *mergeFns) string {
+	isCur := func(v ssa.Value) bool {
+		switch cv := v.(type) {
+		case *ssa.Extract:
+			if lk, ok := cv.Tuple.(*ssa.Lookup); ok && lk.Index == ml.key {
+				return true
+			}
+		case *ssa.Lookup:
+			return cv.Index == ml.key
+		}
+		return false
+	}
+	// the object probes of the two sides
+	var intoCur, intoVal *ssa.Call
+	allInstrs(fn, func(i ssa.Instruction) {
+		call, ok := i.(*ssa.Call)
+		if !ok || len(call.Call.Args) == 0 {
+			return
+		}
+		f := call.Call.StaticCallee()
+		if f == nil || f.Signature.Results().Len() == 0 || !isPtrToNamed(f.Signature.Results().At(0).Type(), "partialDoc") {
+			return
+		}
+		if isCur(call.Call.Args[0]) {
+			intoCur = call
+		}
+		if call.Call.Args[0] == ml.val {
+			intoVal = call
+		}
+	})
+	if intoCur == nil || intoVal == nil {
+		return "the member walk does not probe both the current value and the patch member for being objects"
+	}
+	okEdge := func(call *ssa.Call, blk *ssa.BasicBlock) bool { // blk lies behind the success of call
+		for _, e := range errResultOf(call) {
+			for _, t := range nilTests(fn, e) {
+				if edgeDominates(t.Blk, 1-t.NonNilSucc, blk) || t.Blk.Succs[1-t.NonNilSucc] == blk {
+					return true
+				}
+			}
+		}
+		return false
+	}
+	var rec *ssa.Call
+	for _, cs := range callsTo(fn, func(cc *ssa.CallCommon) bool { return cc.StaticCallee() == mf.mergeDocs }) {
+		a := cs.Common().Args
+		e0, ok0 := a[0].(*ssa.Extract)
+		e1, ok1 := a[1].(*ssa.Extract)
+		if ok0 && ok1 && e0.Tuple == ssa.Value(intoCur) && e1.Tuple == ssa.Value(intoVal) {
+			rec, _ = cs.(*ssa.Call)
+		}
+	}
+	check := func(v ssa.Value, from *ssa.BasicBlock) string {
+		switch {
+		case v == ml.val:
+			if okEdge(intoCur, from) && okEdge(intoVal, from) {
+				return "the patch member itself is stored at " + b.posOf(at) + " although both sides were found to be objects: the target's other members are lost"
+			}
+			return ""
+		case isCur(v):
+			if rec == nil {
+				return "the current value is stored back without a recursive walk over (its object, the member's object)"
+			}
+			if !(okEdge(intoCur, from) && okEdge(intoVal, from)) {
+				return "the current value is stored back on a path on which one side is not an object: the patch value does not replace it"
+			}
+			if !rec.Block().Dominates(from) && rec.Block() != from {
+				return "the current value is stored back on a path that skips the recursive walk"
+			}
+			return ""
+		}
+		return "the value stored for the key at " + b.posOf(at) + " is neither the patch member nor the current value"
+	}
+	if phi, ok := x.(*ssa.Phi); ok {
+		for i, e := range phi.Edges {
+			if why := check(e, phi.Block().Preds[i]); why != "" {
+				return why
+			}
+		}
+		return ""
+	}
+	return check(x, at.Block())
+}
+
+
+// behindFailedObjectProbe: the call lies on the failure edge of a call that turns a node
+// other than the call's own argument into an object container (the target is not an object).
+func (b *Body) behindFailedObjectProbe(fn *ssa.Function, cs ssa.CallInstruction) bool {
+	found := false
+	allInstrs(fn, func(i ssa.Instruction) {
+		call, ok := i.(*ssa.Call)
+		if !ok || len(call.Call.Args) == 0 {
+			return
+		}
+		f := call.Call.StaticCallee()
+		if f == nil || f.Signature.Results().Len() == 0 || !isPtrToNamed(f.Signature.Results().At(0).Type(), "partialDoc") {
+			return
+		}
+		if len(cs.Common().Args) > 0 && call.Call.Args[0] == cs.Common().Args[0] {
+			return
+		}
+		for _, e := range errResultOf(call) {
+			for _, t := range nilTests(fn, e) {
+				if edgeDominates(t.Blk, t.NonNilSucc, cs.Block()) || t.Blk.Succs[t.NonNilSucc] == cs.Block() {
+					found = true
+				}
+			}
+		}
+	})
+	return found
 }
